@@ -23,7 +23,7 @@ LEVEL_TEXT = ("Random points of the quantified parameter box (N 1-60, theta_s (0
 LEVEL_NOTE = "Tolerances 1e-9*h on depth identities; N = 1 has no level pair: index validity is required only where the weight is non-zero. Trusts icontract (evaluation counts reported; zero => inconclusive)."
 RULE = ("case = chunk of random parameter points; every point calls s_stretch (rho,w), sdepth (rho,w) and z2s for ~40 depths per column; some chunks build a real "
         "ROMS.Grid from a generated file and from Vinfo. Non-trivial point: N >= 2 and stretched (theta_s > 0.5); distinct by rounded parameters.")
-MANDATORY = ["bathymetry_as_integer_array", "vinfo_theta_b_exactly_zero_vstretching_1", "vinfo_with_hc_zero_on_a_file_with_hc", "vinfo_with_another_hc_than_the_file", "z2s_result_kept_over_a_second_lookup", "grid_file_with_Tcline", "bathymetry_not_c_contiguous", "z2s_calls_over_many_cells", "post_s_stretch", "post_sdepth", "post_z2s", "vtransform1", "vtransform2", "vstretching1", "vstretching2", "vstretching4",
+MANDATORY = ["z2s_call_with_more_than_20000_particles", "grid_file_with_land_cells", "bathymetry_as_integer_array", "vinfo_theta_b_exactly_zero_vstretching_1", "vinfo_with_hc_zero_on_a_file_with_hc", "vinfo_with_another_hc_than_the_file", "z2s_result_kept_over_a_second_lookup", "grid_file_with_Tcline", "bathymetry_not_c_contiguous", "z2s_calls_over_many_cells", "post_s_stretch", "post_sdepth", "post_z2s", "vtransform1", "vtransform2", "vstretching1", "vstretching2", "vstretching4",
              "depth_above_surface", "depth_below_bottom", "depth_on_level", "grid_from_file", "grid_from_vinfo", "N1", "vinfo_dictionary_reused", "grid_file_without_Vtransform", "grid_file_with_Vstretching"]
 ASSUMPTIONS = ["zeta = 0 (ladim ignores sea-surface elevation)", "Vtransform 1 only with hc <= min(h), as the property quantifies"]
 TIMEOUT = {"quick": 600, "thorough": 3000}
@@ -225,6 +225,16 @@ def run_case(case: dict[str, Any], wd: Path) -> dict[str, Any]:
                 if np.any(np.asarray(first[0]) != K1) or np.any(np.asarray(first[1]) != A1):
                     V.append(C.viol("the index/weight arrays returned by z2s changed when z2s was called again for other depths", params=p))
             bump("z2s_calls_over_many_cells")
+            if rng.random() < 0.04:
+                # a large cloud in one call (tens of thousands of particles), depths from above the surface to below the bottom
+                nb = int(rng.integers(21000, 70000))
+                Ib, Jb = rng.integers(0, nx, size=nb), rng.integers(0, 3, size=nb)
+                Xb = Ib + rng.uniform(-0.49, 0.49, size=nb)
+                Yb = Jb + rng.uniform(-0.49, 0.49, size=nb)
+                Zb = rng.uniform(-0.1, 1.1, size=nb) * h[Jb, Ib]
+                Zb[::5] = 0.0
+                guarded("z2s (large cloud in one call)", p, R.z2s, zr, Xb, Yb, Zb)
+                bump("z2s_call_with_more_than_20000_particles")
             if N >= 2 and p["theta_s"] > 0.5:
                 keys.add((N, round(p["theta_s"], 3), round(p["theta_b"], 3), p["Vstretching"], p["Vtransform"], round(hc, 3)))
             if len(V) > 4:
@@ -253,6 +263,9 @@ def run_case(case: dict[str, Any], wd: Path) -> dict[str, Any]:
         if case["idx"] % 3 == 0:
             spec["vert"]["write_Vstretching"] = True
             bump("grid_file_with_Vstretching")
+        if case["idx"] % 2 == 0:
+            spec["mask"] = dict(kind="random", p=0.25, seed=case["idx"])  # land cells: the bathymetry there has its levels like everywhere else
+            bump("grid_file_with_land_cells")
         w = W.write_world(wd / "w", spec)
         sub = [2, 7, 1, 6] if rng.random() < 0.5 else None
         vinfo = dict(N=p["N"], hc=hc, theta_s=p["theta_s"], theta_b=p["theta_b"], Vstretching=p["Vstretching"], Vtransform=p["Vtransform"])
